@@ -255,6 +255,23 @@ def run(ctx: C.Ctx):
         hs.append((idx, h))
         ctx.sample({"basis": h.basis, "n_modes": h.n_modes, "opt": h.opt, "shapes": [list(d.shape) for d in h.datasets],
                     "ops": h.describe()["ops"]}, limit=4)
+    # short refit histories on re-recorded data of the same shape but another storage type (integers, then floats with
+    # fractions; single, then double precision): nothing of the earlier fit – not even its dtype – may survive
+    for idx in range(ctx.scale(40, 400)):
+        h = H.gen_history(rng, max_ops=2, same_shape=True, allow_invalid=False, kinds=("fit",), basis=rng.choice(["identity", "identity", "svd", "rp"]))
+        if len(h.datasets) < 2:
+            continue
+        ne, nf = h.datasets[0].shape
+        d0 = np.array([[rng.randint(-6, 6) for _ in range(nf)] for _ in range(ne)]).astype(rng.choice(["int64", "int32", "float32", "uint8"]))
+        d1 = (np.array([[rng.randint(-24, 24) / 4 for _ in range(nf)] for _ in range(ne)])).astype("float64")
+        h.datasets = [np.abs(d0) if d0.dtype == np.uint8 else d0, d1] + h.datasets[2:]
+        h.ops = [("fit", 0, False, rng.choice([None, 0, 3])), ("fit", 1, False, rng.choice([None, 0, 3]))]
+        if rng.random() < 0.3:
+            h.ops.append(("set", rng.randint(1, nf), rng.randint(0, 1)))
+        ctx.evaluations += 1
+        ctx.count("dtype_switch_refit:" + h.basis)
+        judge(ctx, h, 10 ** 6 + idx)
+        hs.append((10 ** 6 + idx, h))
     machine_compare(ctx, hs, "C15")
     optimizer_refits(ctx, ctx.scale(150, 2000))
 
